@@ -76,6 +76,12 @@ pub fn dynamic_type_tokinizer(tokinizer: &mut Tokinizer) {
                             log::debug!(" --------- {} found", type_name);
                         }
                         
+                        /* A pattern that does not bind a number to "value" cannot produce a quantity */
+                        let value = match get_number("value", &fields) {
+                            Some(value) => value,
+                            None => continue
+                        };
+
                         let text_start_position = tokinizer.token_infos[start_token_index].start;
                         let text_end_position   = tokinizer.token_infos[target_token_index - 1].end;
                         execute_rules = true;
@@ -84,7 +90,6 @@ pub fn dynamic_type_tokinizer(tokinizer: &mut Tokinizer) {
                             tokinizer.token_infos[index].status.set(TokenInfoStatus::Removed);
                         }
                         
-                        let value = get_number("value", &fields).unwrap();
                         if let Some(data) = fields.get("type") {
                             tokinizer.ui_tokens.update_tokens(data.start, data.end, UiTokenType::Symbol2)
                         }
